@@ -3,7 +3,9 @@
 package deviceshare
 
 import (
+	"context"
 	"fmt"
+	"os"
 	"sort"
 	"strconv"
 	"strings"
@@ -14,7 +16,9 @@ import (
 	metav1 "k8s.io/apimachinery/pkg/apis/meta/v1"
 	"k8s.io/apimachinery/pkg/types"
 	"k8s.io/apimachinery/pkg/util/sets"
+	fwktype "k8s.io/kube-scheduler/framework"
 	schedconfig "k8s.io/kubernetes/pkg/scheduler/apis/config"
+	"k8s.io/kubernetes/pkg/scheduler/framework"
 
 	apiext "github.com/koordinator-sh/koordinator/apis/extension"
 	schedulingv1alpha1 "github.com/koordinator-sh/koordinator/apis/scheduling/v1alpha1"
@@ -451,6 +455,7 @@ type c07Case struct {
 	infoMin [3][]int // minors of nodeDevice.deviceInfos (last updateNodeDevice)
 	live    [3]map[int][]c07Alloc
 	exact   bool // every removal so far carried the recorded allocation and no malformed add happened
+	staleFP string // env-gated stream: fingerprint to use when used != sum of live is due to a caller-supplied removal
 	sched   bool // the Lean history predicate histSched on the harness' own record: every accepted add was an allocator-consistent commit on the ledger of that moment, no refresh went below what is in use
 	histX   bool // the Lean history predicate histExact, computed here on the harness' own record: every accepted add had one entry per minor, every accepted removal carried exactly the recorded list
 	loose   bool // malformed stream: raw adds / heterogeneous devices => allocation oracle only tags
@@ -625,7 +630,11 @@ func (c *c07Case) checkLedger(kind string, before, after *c07Ledger) {
 				w = *want[key]
 			}
 			if got := after.row(key[0], key[1]).u; got != w {
-				h.Fail("C07:used-ne-sum-of-live", "%s: type %d minor %d used %v sum of live allocations %v", kind, key[0], key[1], got, w)
+				fp := "C07:used-ne-sum-of-live"
+				if c.staleFP != "" {
+					fp = c.staleFP // env-gated stream only
+				}
+				h.Fail(fp, "%s: type %d minor %d used %v sum of live allocations %v", kind, key[0], key[1], got, w)
 				return
 			}
 		}
@@ -1794,4 +1803,342 @@ func TestVerifC07(t *testing.T) {
 		"preemption/reservation view, nil/least/most scorer) + commit, release, duplicate add, removal of an absent pod, re-delivered update, pod update with a CHANGED allocation annotation " +
 		"(moved minor / other amounts / type or device appears / disappears / annotation appears on an unknown pod, old object unassigned; then resync and delete), inventory refresh / invalidation; " +
 		"1/6 of the cases are the malformed stream (raw adds, stale removals, heterogeneous devices). non-trivial = at least one allocation was committed; distinct by op list")
+}
+
+// ---------------------------------------------------------------------------------------------------------------
+// C07 "path" harness: the REAL scheduling path of a GPU pod - Plugin.PreFilter (preparePod: request shapes from the
+// pod spec) -> Plugin.Filter -> Plugin.Reserve (allocate + updateCacheUsed) -> informer confirmation
+// (onPodUpdate: the annotation PreBind wrote appears on the assigned pod) / Plugin.Unreserve / onPodDelete, on a
+// Plugin built by the package's own test fixture.  The model gets the per-GPU request the PROPERTY gives to the pod
+// spec, the implementation's verdict and choice (`alloc … mode 1`: checked for consistency with the model's ledger),
+// and the committed allocation.
+//
+// Off by default (decisions pending, see props/C07.json):
+//   VERIF_C07_HETERO=1  GPUs of one node expose different resource names (a device without gpu-core / gpu-memory);
+//                       quotav1.LessThanOrEqual ignores a requested name the device does not expose
+//                       -> fingerprint C07:missing-dimension-accepted
+//   VERIF_C07_STALE=1   the annotation that reaches the informer differs from what Reserve recorded (foreign edit), or
+//                       changes in the update that reports the pod terminated; removal subtracts the caller-supplied
+//                       amounts -> fingerprint C07:caller-supplied-removal
+// ---------------------------------------------------------------------------------------------------------------
+
+type c07PathPod struct {
+	id    int
+	pod   *corev1.Pod
+	cs    fwktype.CycleState
+	alloc apiext.DeviceAllocations
+	g     c07Groups
+}
+
+func c07GroupsOf(al apiext.DeviceAllocations) c07Groups {
+	g := c07Groups{}
+	for t, dt := range c07Types {
+		l, ok := al[dt]
+		if !ok {
+			continue
+		}
+		es := []c07Alloc{}
+		for _, a := range l {
+			v := c07Absent
+			for k := 0; k < c07D; k++ {
+				if q, ok := a.Resources[c07Res[t][k]]; ok {
+					v[k] = q.Value()
+				}
+			}
+			es = append(es, c07Alloc{minor: int(a.Minor), vec: v})
+		}
+		g[t] = es
+	}
+	return g
+}
+
+func TestVerifC07Path(t *testing.T) {
+	h := vOpen("C07")
+	if h == nil {
+		t.Skip("VERIF_OUT not set")
+	}
+	hetero := os.Getenv("VERIF_C07_HETERO") == "1"
+	stale := os.Getenv("VERIF_C07_STALE") == "1"
+	node := &corev1.Node{ObjectMeta: metav1.ObjectMeta{Name: c07Node}}
+	suit := newPluginTestSuit(t, []*corev1.Node{node})
+	p, err := suit.proxyNew(context.TODO(), getDefaultArgs(), suit.Framework)
+	if err != nil {
+		t.Fatalf("plugin: %v", err)
+	}
+	pl := p.(*Plugin)
+	nodeInfo := framework.NewNodeInfo()
+	nodeInfo.SetNode(node)
+
+	n := h.N(400, 8000)
+	for idx := 0; idx < n; idx++ {
+		r := h.Begin(idx)
+		if r == nil {
+			continue
+		}
+		pl.nodeDeviceCache = newNodeDeviceCache()
+		c := &c07Case{h: h, r: r, cache: pl.nodeDeviceCache, exact: true, histX: true, sched: true, nextPod: 1, cur: &c07Ledger{rows: map[[2]int]*c07Row{}, pods: map[[2]int]map[int]c07Vals{}}}
+		for tt := 0; tt < 3; tt++ {
+			c.live[tt] = map[int][]c07Alloc{}
+		}
+		c.inPlay = []int{0}
+		c.da[0] = 3
+		// inventory: 1-4 GPUs, all exposing gpu-core / gpu-memory / gpu-memory-ratio (what koordlet reports)
+		ng := r.Range(1, 4)
+		perm := r.Perm(6)
+		mem := int64(r.Pick([]int64{16, 80}))
+		for i := 0; i < ng; i++ {
+			d := c07Dev{minor: perm[i], healthy: !r.Chance(1, 10), res: c07Vec{100, mem, 100}, numa: -1}
+			if hetero && r.Chance(1, 3) {
+				// a device that does not expose gpu-core (or gpu-memory-ratio).  A device without gpu-memory is left out on
+				// purpose: a gpu-core+gpu-memory pod lands on it and fillGPUTotalMem then divides by the missing total
+				// (memoryBytesToRatio: int64(+Inf) = MinInt64 is committed as gpu-memory-ratio) - reported separately.
+				d.res[r.Pick([]int64{0, 0, 2})] = -1
+				h.Tag("inventory:heterogeneous")
+			}
+			c.inv[0] = append(c.inv[0], d)
+		}
+		sort.Slice(c.inv[0], func(i, j int) bool { return c.inv[0][i].minor < c.inv[0][j].minor })
+		c.applyInventory(false)
+
+		var pods []*c07PathPod
+		steps := r.Range(3, 9)
+		scheduled := 0
+		for s := 0; s < steps; s++ {
+			x := r.Intn(100)
+			switch {
+			case x < 55: // schedule a new pod
+				id := c.nextPod
+				c.nextPod++
+				// the intent: cnt GPUs, each corePer / ratioPer (or memPer units of memory)
+				cnt := 1
+				req := c07Absent
+				podReq := corev1.ResourceList{}
+				switch r.Intn(6) {
+				case 0: // whole GPUs by vendor resource
+					cnt = r.Range(1, 3)
+					req = c07Vec{100, -1, 100}
+					podReq[apiext.ResourceNvidiaGPU] = *resource.NewQuantity(int64(cnt), resource.DecimalSI)
+					h.Tag("shape:nvidia-gpu")
+				case 1: // koordinator.sh/gpu percentage
+					v := int64(r.Pick([]int64{100, 200, 50, 30, 300}))
+					if v > 100 {
+						cnt = int(v / 100)
+						req = c07Vec{100, -1, 100}
+					} else {
+						req = c07Vec{v, -1, v}
+					}
+					podReq[apiext.ResourceGPU] = *resource.NewQuantity(v, resource.DecimalSI)
+					h.Tag("shape:koord-gpu")
+				case 2, 3: // gpu-core + gpu-memory-ratio
+					if r.Chance(1, 3) {
+						cnt = r.Range(2, 3)
+						req = c07Vec{100, -1, 100}
+					} else {
+						req = c07Vec{int64(r.Pick([]int64{10, 30, 50, 70, 100})), -1, int64(r.Pick([]int64{10, 30, 50, 70, 100}))}
+					}
+					podReq[apiext.ResourceGPUCore] = *resource.NewQuantity(req[0]*int64(cnt), resource.DecimalSI)
+					podReq[apiext.ResourceGPUMemoryRatio] = *resource.NewQuantity(req[2]*int64(cnt), resource.DecimalSI)
+					h.Tag("shape:core+ratio")
+				case 4: // memory ratio only
+					req = c07Vec{-1, -1, int64(r.Pick([]int64{20, 50, 100}))}
+					podReq[apiext.ResourceGPUMemoryRatio] = *resource.NewQuantity(req[2], resource.DecimalSI)
+					h.Tag("shape:ratio-only")
+				default: // gpu-core + gpu-memory (bytes)
+					req = c07Vec{int64(r.Pick([]int64{20, 50, 100})), int64(r.Pick([]int64{4, 8, 16, 40})), -1}
+					podReq[apiext.ResourceGPUCore] = *resource.NewQuantity(req[0], resource.DecimalSI)
+					podReq[apiext.ResourceGPUMemory] = *resource.NewQuantity(req[1], resource.BinarySI)
+					h.Tag("shape:core+memory")
+				}
+				pod := c07Pod(id, nil, "")
+				pod.Spec.Containers = []corev1.Container{{Name: "c", Resources: corev1.ResourceRequirements{Requests: podReq, Limits: podReq}}}
+				cs := framework.NewCycleState()
+				var fst *fwktype.Status
+				var result apiext.DeviceAllocations
+				reserved := false
+				if h.Guard(func() {
+					if _, st := pl.PreFilter(context.TODO(), cs, pod, nil); !st.IsSuccess() {
+						fst = st
+						return
+					}
+					fst = pl.Filter(context.TODO(), cs, pod, nodeInfo)
+					if !fst.IsSuccess() {
+						return
+					}
+					if st := pl.Reserve(context.TODO(), cs, pod, c07Node); !st.IsSuccess() {
+						fst = st
+						return
+					}
+					reserved = true
+					if state, st := getPreFilterState(cs); st.IsSuccess() {
+						result = state.allocationResult
+					}
+				}) {
+					h.Op("alloc 0 1 %d 0 %s 0 0 0 0 0", cnt, req.tok())
+					h.Obs("panic")
+					continue
+				}
+				h.Tag("entry:Plugin.PreFilter+Filter+Reserve")
+				q := &c07Request{t: 0, req: req, desired: cnt}
+				res := c07ResultOf(0, result[schedulingv1alpha1.GPU], !reserved)
+				h.Op("alloc 0 1 %d 0 %s 0 0 0 %d %s", cnt, req.tok(), vB(res.ok), c07IntsTok(res.minors))
+				before := c.cur
+				// observation of the verdict: the ledger the allocator read is the one BEFORE Reserve committed
+				if !res.ok {
+					h.Obs("alloc fail")
+					h.Tag("alloc:fail")
+				} else {
+					ms := append([]int(nil), res.minors...)
+					sort.Ints(ms)
+					h.Obs("alloc ok %d %s", len(ms), vIntsI(ms))
+					cov := true
+					for i, m := range res.minors {
+						row := before.rows[[2]int{0, m}]
+						if row == nil || !row.hasF {
+							continue
+						}
+						for k := 0; k < c07D; k++ {
+							if req[k] >= 0 && !row.fp[k] {
+								cov = false
+							}
+						}
+						_ = i
+					}
+					h.Obs("cov %d", vB(cov))
+					h.Tag("alloc:ok")
+				}
+				// oracle (the statement, on the value ledger before the commit)
+				qual := c07Qualifying(before, q)
+				for m := range qual {
+					if before.row(0, m).t == (c07Vals{}) {
+						delete(qual, m) // unhealthy / zero device
+					}
+				}
+				fp := "C07:alloc-unsound:not-enough-free"
+				if hetero {
+					fp = "C07:missing-dimension-accepted"
+				}
+				if !res.ok {
+					if len(qual) >= cnt {
+						h.Fail("C07:alloc-incomplete", "request %v x%d refused (%v) although GPUs %v qualify", req, cnt, fst, qual)
+					}
+					continue
+				}
+				seen := map[int]bool{}
+				for _, m := range res.minors {
+					if seen[m] {
+						h.Fail("C07:alloc-unsound:duplicate-minor", "minor %d returned twice", m)
+					}
+					seen[m] = true
+					if !qual[m] {
+						row := before.row(0, m)
+						h.Fail(fp, "GPU %d chosen for per-GPU request %v: free %v total %v used %v", m, req, row.f, row.t, row.u)
+					}
+				}
+				if len(res.minors) != cnt {
+					h.Fail("C07:alloc-unsound:count", "%d GPUs returned, %d requested", len(res.minors), cnt)
+				}
+				g := c07GroupsOf(result)
+				for i, a := range g[0] {
+					for k := 0; k < c07D; k++ {
+						if req[k] >= 0 && a.vec[k] != req[k] {
+							h.Fail("C07:alloc-unsound:amount", "GPU %d allocated %v, per-GPU request %v", a.minor, a.vec, req)
+						}
+					}
+					_ = i
+				}
+				// the commit Reserve made
+				h.Op("add %d %s", id, g.tok())
+				for _, tt := range g.types() {
+					c.noteAdd(tt, id, g[tt], before)
+				}
+				kind := "commit"
+				if hetero {
+					kind = "raw-add"
+				}
+				c.cur = c.emitLedger()
+				c.checkLedger(kind, before, c.cur)
+				pods = append(pods, &c07PathPod{id: id, pod: pod, cs: cs, alloc: result, g: g})
+				scheduled++
+				h.Tag("op:commit")
+			case x < 70: // the informer confirms the binding: the annotation PreBind wrote appears on the assigned pod
+				if len(pods) == 0 {
+					continue
+				}
+				pp := pods[r.Intn(len(pods))]
+				ann := pp.g
+				if stale && r.Chance(1, 2) && len(ann[0]) > 0 { // a foreign edit: other amounts reach the informer
+					ann = c07Groups{0: append([]c07Alloc(nil), ann[0]...)}
+					ann[0][0].vec = c07Vec{10, -1, 10}
+					h.Tag("stale:foreign-annotation")
+					pp.g = ann
+				}
+				c.doUpdate("dup", pp.id, c07Groups{}, ann, false, true, false)
+				h.Tag("op:informer-confirm")
+			case x < 82: // binding failed: Unreserve
+				if len(pods) == 0 {
+					continue
+				}
+				i := r.Intn(len(pods))
+				pp := pods[i]
+				g := c07GroupsOf(pp.alloc)
+				h.Op("rem %d %s", pp.id, g.tok())
+				before := c.cur
+				if h.Guard(func() { pl.Unreserve(context.TODO(), pp.cs, pp.pod, c07Node) }) {
+					h.Obs("panic")
+					continue
+				}
+				h.Tag("entry:Plugin.Unreserve")
+				for _, tt := range g.types() {
+					c.noteRemove(tt, pp.id, g[tt])
+				}
+				c.cur = c.emitLedger()
+				c.checkLedger("release", before, c.cur)
+				pods = append(pods[:i:i], pods[i+1:]...)
+				h.Tag("op:release")
+			case x < 94: // the pod is deleted (its last delivered annotation)
+				if len(pods) == 0 {
+					continue
+				}
+				i := r.Intn(len(pods))
+				pp := pods[i]
+				if stale {
+					c.exact = true // keep the used = sum-of-live clause armed: this stream is about exactly that
+				}
+				g := pp.g
+				h.Op("del %d 1 %s", pp.id, g.tok())
+				before := c.cur
+				if h.Guard(func() { c.cache.onPodDelete(c07Pod(pp.id, g.api(), c07Node)) }) {
+					h.Obs("panic")
+					continue
+				}
+				h.Tag("entry:onPodDelete")
+				wasExact := c.exact
+				for _, tt := range g.types() {
+					c.noteRemove(tt, pp.id, g[tt])
+				}
+				if stale && wasExact && !c.exact {
+					c.exact = true
+					c.staleFP = "C07:caller-supplied-removal"
+				}
+				c.cur = c.emitLedger()
+				c.checkLedger("release", before, c.cur)
+				pods = append(pods[:i:i], pods[i+1:]...)
+				h.Tag("op:release")
+			default: // inventory refresh: health toggles
+				if len(c.inv[0]) > 0 {
+					i := r.Intn(len(c.inv[0]))
+					c.inv[0][i].healthy = !c.inv[0][i].healthy
+				}
+				c.applyInventory(false)
+				h.Tag("op:refresh")
+			}
+		}
+		if scheduled > 0 {
+			h.Nontrivial()
+		}
+		h.End()
+	}
+	h.Close("real scheduling path on one node with 1-4 GPUs (16/80 units of memory, unhealthy devices): 3-9 steps of PreFilter+Filter+Reserve of a pod whose SPEC requests " +
+		"nvidia.com/gpu, koordinator.sh/gpu, gpu-core+gpu-memory-ratio (single, fractional, multi-GPU), gpu-memory-ratio only, gpu-core+gpu-memory; informer confirmation, Unreserve, pod deletion, health refresh; " +
+		"VERIF_C07_HETERO / VERIF_C07_STALE add heterogeneous GPUs / foreign annotation edits. non-trivial = at least one pod was reserved; distinct by op list")
 }
